@@ -4,7 +4,9 @@ go 1.23
 
 require (
 	github.com/elastic/go-seccomp-bpf v0.0.0
+	github.com/elastic/go-ucfg v0.8.8
 	golang.org/x/net v0.24.0
+	gopkg.in/yaml.v2 v2.4.0
 	pgregory.net/rapid v1.3.0
 )
 
